@@ -79,6 +79,11 @@ func zzC09_mux() {
 	case report = <-mux.ErrorReports():
 	default:
 	}
+	vObserve("handlers", uint64(len(log)))
+	if len(log) > 0 {
+		vObserve("handler", uint64(log[0]))
+	}
+	vObserve("report", zzB2U(report != nil))
 	if want != 0 {
 		vAssert(len(log) == 1 && log[0] == want, "exactly the handler chosen by index, then name, then catch-all is called")
 		vAssert(report == nil, "no error report when a handler ran")
